@@ -169,7 +169,8 @@ Definition outer_discretisation (p : pbox) (n : option nat) : list (N * N) :=
 Definition equal_weights (k : nat) : list N := repeat (none / nofZ N (Z.of_nat k)) k.
 Definition pcondensation (p : pbox) (n : nat) : res pbox :=
   let iv := outer_discretisation p (Some n) in
-  stacking (map fst iv) (map snd iv) (equal_weights (length iv)).
+  (* make_vec_interval asserts len(vec) > 1 *)
+  if Nat.leb (length iv) 1 then Raise AssertionErr else stacking (map fst iv) (map snd iv) (equal_weights (length iv)).
 (* get_PI(alpha, style): Interval(lo, hi) asserts lo <= hi; 'narrowest' falls back to 'widest' *)
 Definition pi_levels (alpha : N) : N * N := let lc := (none - alpha) / nofZ N 2 in (lc, none - lc).
 Definition pi_widest (p : pbox) (alpha : N) : res (N * N) :=
